@@ -141,7 +141,13 @@ class _IdxArr(np.ndarray):
     def __getitem__(self, key):
         if isinstance(key, list) and any(isinstance(k, SI) for k in key):
             key = [k.__index__() if isinstance(k, SI) else k for k in key]
-        return np.asarray(np.ndarray.__getitem__(self, key))
+        r = np.ndarray.__getitem__(self, key)
+        return r.view(np.ndarray) if isinstance(r, np.ndarray) else r
+
+    def __array_wrap__(self, out, context=None, return_scalar=False):
+        # results of arithmetic on the index grid are ordinary arrays
+        r = np.asarray(out).view(np.ndarray)
+        return r[()] if return_scalar else r
 
 
 def p_arange(*a, **kw):
@@ -149,3 +155,40 @@ def p_arange(*a, **kw):
     `__index__` conversion of Python ints would require"""
     a = [as_int(x) if isinstance(x, SI) else x for x in a]
     return np.arange(*a, **kw).view(_IdxArr)
+
+
+def _push_aux_axioms():
+    """vf.sym replaces a division by a symbolic divisor by a fresh quotient variable whose defining axiom
+    (q*b == a, b != 0) is only added to the FINAL queries; branches taken right after a quotient was
+    rounded (`index < 0 or index > max_step`) need it on the live path condition as well, otherwise
+    infeasible paths are explored.  Defining axioms are always-true side conditions; adding them to the
+    path condition changes no verdict.  (Suggested for vf.sym._feasible itself.)"""
+    from . import sym as _sym
+    if _sym.CTX is None or not hasattr(_sym, "div_axioms"):
+        return
+    have = {f.get_id() for f in _sym.CTX.pc if isinstance(f, z3.ExprRef)}
+    for ax in _sym.div_axioms():
+        if ax.get_id() not in have:
+            _sym.CTX.pc.append(ax)
+
+
+def _elementwise(fn, npfn):
+    def f(x, *a, **kw):
+        from .env import _is_sym
+        if not _is_sym(x):
+            return npfn(x, *a, **kw)
+        _push_aux_axioms()
+        if isinstance(x, np.ndarray):
+            out = np.empty(x.shape, dtype=object)
+            for idx in np.ndindex(*x.shape):
+                out[idx] = fn(x[idx])
+            return out
+        return fn(x)
+    return f
+
+
+def time_np_overrides():
+    """extra NpProxy overrides for modules that turn times into steps (a repair may use floor/trunc)"""
+    from .env import sym_floor, sym_trunc, sym_round
+    return {"arange": p_arange, "round": _elementwise(sym_round, np.round), "floor": _elementwise(sym_floor, np.floor),
+            "trunc": _elementwise(sym_trunc, np.trunc), "rint": _elementwise(sym_round, np.rint)}
